@@ -337,6 +337,30 @@ Theorem C18_close_overwrite_loses_copy_error :
   handle_download_close_overwrites cfg b r = None /\ handle_download cfg b r = Some 7.
 Proof. exact close_overwrite_loses_copy_error. Qed.
 
+(* ---- the request-level error target's outcome stands for EVERY outcome of the client-level type ---- *)
+Theorem C18_request_target_failure_stands : forall tg b r x u,
+  t_error tg = true -> r_present r = true -> result_state r = ErrorState -> r_status r <> no_content ->
+  body_ok b r -> b_um_req b = Some x ->
+  snd (parse_response_body tg (with_um_com u b) r) = Some x /\
+  r_error (fst (parse_response_body tg (with_um_com u b) r)) = r_error r /\
+  r_result (fst (parse_response_body tg (with_um_com u b) r)) = r_result r.
+Proof. exact request_target_failure_stands. Qed.
+Print Assumptions C18_request_target_failure_stands.
+
+Theorem C18_request_target_shadows_for_every_common_outcome : forall tg b r u,
+  t_error tg = true -> r_present r = true -> result_state r = ErrorState -> r_status r <> no_content ->
+  body_ok b r -> b_um_req b = None -> r_error r = ENone ->
+  r_error (fst (parse_response_body tg (with_um_com u b) r)) = EReq.
+Proof. exact request_target_shadows_for_every_common_outcome. Qed.
+Print Assumptions C18_request_target_shadows_for_every_common_outcome.
+
+Theorem C18_flattened_branch_overwrites_failure :
+  let tg := mkTargets false true true in
+  let b := mkBody None None None (Some 7) None None None in
+  let r := mkResp true 500 None None true false ENone in
+  parse_error_branch_flattened tg b r = (set_error ECommon r, None) /\ parse_response_body tg b r = (r, Some 7).
+Proof. exact flattened_branch_overwrites_failure. Qed.
+
 (* ---- a failing body read surfaces for EVERY body transformer (installed or not, failing or not) ---- *)
 Theorem C18_read_error_kept_for_every_transformer : forall b r e tf,
   r_err r = None -> r_cached r = false -> r_present r = true -> b_read b = Some e ->
